@@ -272,12 +272,12 @@ def tasks(tier, seed):
   C0 = {"num": [(0, "c")], "den": [(0, "c")]}
   TV = [{"num": [(0, S)], "den": [(0, "c")]}, {"num": [(0, "c"), (1, S)], "den": [(0, "c")]},
         {"num": [(0, "c")], "den": [(0, "c"), (1, S)]}, {"num": [(0, "c")], "den": [(0, S)]}]
-  for f in TV:
-    for op in ("cmul", "mulc", "addc", "delay", "self2"):
-      T.append(("h_algebra", {"op": op, "f": f, "g": C0, "N": N}))
   # integer powers of time-varying filters: one-term and several-term polynomials take different routes in Poly.__pow__
   for f in TV + [{"num": [(1, S)], "den": [(0, "c")]}, {"num": [(0, "c"), (1, S)], "den": [(0, "c"), (1, "c")]}]:
     for op in ("pow2", "pow3") + (("powm1", "powm2") if f["num"][0][0] == 0 else ()):
+      T.append(("h_algebra", {"op": op, "f": f, "g": C0, "N": N}))
+  for f in TV:
+    for op in ("cmul", "mulc", "addc", "delay", "self2"):
       T.append(("h_algebra", {"op": op, "f": f, "g": C0, "N": N}))
     for op in ("add", "sub", "mul", "div"):
       T.append(("h_algebra", {"op": op, "f": f, "g": {"num": [(0, "c"), (1, "c")], "den": [(0, "c")]}, "N": N}))
